@@ -189,7 +189,7 @@ func (g *gen) newLine() string {
 	default:
 		pools = "10.0.0.0/28/29" // 2 blocks of 8
 	}
-	cool := rt.Pick(h, []int{0, 0, 0, 300})
+	cool := rt.Pick(h, []int{0, 0, 300})
 	strict := h.Intn(3) == 0
 	maxblk := 0
 	if strict {
@@ -210,6 +210,9 @@ func (g *gen) beginLine() string {
 	hid := h.Intn(len(e.Handles) + 1)
 	if h.Chance(0.8) && hid == 0 {
 		hid = 1 + h.Intn(len(e.Handles))
+	}
+	if g.r.Params["cool"] != "0" && h.Chance(0.3) {
+		hid = 0 // handle-less allocations next to cooldown entries
 	}
 	// live addresses, for meaningful releases
 	type addr struct{ b, o, h int }
